@@ -4,8 +4,8 @@
 //
 //   pmr <nrec> <recs each> <flushers e.g. i2> <nshut> <exporter script> ; <action> ; ...
 //     nrec suffix = how the reader is built: none = (exporter, options) constructor, r = (exporter, options, runtime options)
-//       constructor, f / g = the factory's Create with two / three arguments, x = options the constructor refuses
-//       (export_interval <= export_timeout: it falls back to its defaults) - all must behave as the same reader.
+//       constructor, f / g = the factory's Create with two / three arguments, x / y = options the two- / three-argument
+//       constructor refuses (export_interval <= export_timeout: it falls back to its defaults) - all must behave as the same reader.
 //     flushers: 'i' = max, digit k = k * interval, 'h' = half an interval (the wait is clipped to the caller's timeout),
 //       'u' = one microsecond.   nshut suffix: none = Shutdown() (max), 't' finite, 'z' zero, 'u' one microsecond.
 //     threads: 0 = the reader's worker, 1..nrec recorders, then ForceFlush callers, then Shutdown callers; collect threads
@@ -107,7 +107,7 @@ static std::string handle(const std::vector<std::string> &t)
   };
   unsigned long nrec, recs, nshut;
   char ctor = 0, shut_to = 0;
-  if (!ops[0][0].empty() && std::string("rfgx").find(ops[0][0].back()) != std::string::npos) { ctor = ops[0][0].back(); ops[0][0].pop_back(); }
+  if (!ops[0][0].empty() && std::string("rfgxy").find(ops[0][0].back()) != std::string::npos) { ctor = ops[0][0].back(); ops[0][0].pop_back(); }
   if (!ops[0][3].empty() && std::string("tzu").find(ops[0][3].back()) != std::string::npos) { shut_to = ops[0][3].back(); ops[0][3].pop_back(); }
   if (!num(ops[0][0], nrec) || !num(ops[0][1], recs) || !num(ops[0][3], nshut)) return "bad-op";
   std::string fl = ops[0][2] == "-" ? "" : ops[0][2];
@@ -142,11 +142,11 @@ static std::string handle(const std::vector<std::string> &t)
   opt.export_interval_millis = std::chrono::milliseconds(1000);
   opt.export_timeout_millis  = std::chrono::milliseconds(500);
   HProducer producer(&sh);
-  if (ctor == 'x') opt.export_interval_millis = std::chrono::milliseconds(400);  // <= timeout: refused, defaults are used
+  if (ctor == 'x' || ctor == 'y') opt.export_interval_millis = std::chrono::milliseconds(400);  // <= timeout: refused, defaults are used
   sdkm::PeriodicExportingMetricReaderRuntimeOptions ropt;
   std::unique_ptr<sdkm::PushMetricExporter> hex(new HExporter(&sh));
   sdkm::PeriodicExportingMetricReader *reader =
-      ctor == 'r'   ? new sdkm::PeriodicExportingMetricReader(std::move(hex), opt, ropt)
+      (ctor == 'r' || ctor == 'y') ? new sdkm::PeriodicExportingMetricReader(std::move(hex), opt, ropt)
       : ctor == 'f' ? static_cast<sdkm::PeriodicExportingMetricReader *>(sdkm::PeriodicExportingMetricReaderFactory::Create(std::move(hex), opt).release())
       : ctor == 'g' ? static_cast<sdkm::PeriodicExportingMetricReader *>(sdkm::PeriodicExportingMetricReaderFactory::Create(std::move(hex), opt, ropt).release())
                     : new sdkm::PeriodicExportingMetricReader(std::move(hex), opt);
